@@ -8,6 +8,8 @@ open Zutil
 
 (* set to false to run the model of Encoder.Encode as found (no alignment check) *)
 let aligned = ref true
+(* set to false to run the model of Decoder.Decode as found (513 segments accepted) *)
+let seglimit_fixed = ref true
 
 let rec zeros_l n acc = if n <= 0 then acc else zeros_l (n - 1) (Z0 :: acc)
 
@@ -91,7 +93,7 @@ let run_decode packed maxv chunks ops stream =
   let dead = ref false in
   List.iter (fun o ->
     if not !dead then begin
-    let (st', r) = dstep !st o in
+    let (st', r) = dstep_gen !seglimit_fixed !st o in
     st := st';
     match r with
     | Some x ->
@@ -105,7 +107,7 @@ let run_decode packed maxv chunks ops stream =
 let show_bytes = function Ok b -> "ok " ^ render b | Err e -> "err " ^ cls e | Panic -> "panic"
 
 let () =
-  Array.iter (fun a -> if a = "-prefix" then aligned := false) Sys.argv;
+  Array.iter (fun a -> if a = "-prefix" then aligned := false; if a = "-prefix513" then seglimit_fixed := false) Sys.argv;
   iter_lines (fun line ->
   match split_ws line with
   | "marshal" :: _ :: s :: _ -> print_endline (show_bytes (marshal (segs_of_expr s)))
